@@ -1,8 +1,8 @@
     // Kani harness for lib/src/timer.rs — appended to the REAL file in a scratch copy. No clock is involved: the
     // harness drives the clock-free internals (set_timeout_at / cancel_timeout / poll_to / next_tick) that the
     // public clock-reading wrappers (set_timeout, poll, next_poll_date) delegate to.
-    const OPS: usize = 4;
-    const HORIZON: u64 = 9;   // ticks 0..=9 over a 4-slot wheel: up to three laps
+    const OPS: usize = 3;
+    const HORIZON: u64 = 5;   // ticks 0..=5 over a 4-slot wheel: a second lap is reached
 
     fn min_live(live: &[Option<Timeout>; OPS]) -> Option<u64> {
         let mut m: Option<u64> = None;
@@ -15,10 +15,10 @@
     }
 
     #[kani::proof]
-    #[kani::unwind(16)]
+    #[kani::unwind(10)]
     fn pending_timeouts_fire_once_and_wakeup_is_never_late() {
         let mut t: Timer<u8> = Timer::new(1, 4, OPS, unsafe { std::mem::zeroed() });
-        let mut live: [Option<Timeout>; OPS] = [None, None, None, None];
+        let mut live: [Option<Timeout>; OPS] = [None, None, None];
         let mut step = 0;
         while step < OPS {
             let op: u8 = kani::any();
